@@ -35,6 +35,24 @@ def regions_of(model, info):
     return regs, (lo, hi), (vlo, vhi), rest2
 
 
+def _rows(chk, m, info, p, stored, res, regs, age_iv, void_iv, rest, covered, table):
+    # D2: atoms that compare the realtime reading against record instants
+    for e, rel in rest:
+        leaves = [fmt(k) for k in e.terms]
+        if info['real'] is not None and any(fmt(info['real']) == l for l in leaves) and \
+                any(l.endswith('as_of') or l.endswith('void_after') for l in leaves):
+            chk.ob('C06.D2', 'now:atom-on-realtime', False, p.where[2],
+                   'status/age decision compares the REALTIME reading with a record instant: %r %s 0' % (e, rel))
+    for r in regs:
+        want = ORACLE[stored][r]
+        key = '%s/R%d' % (stored, r + 1)
+        covered.setdefault(key, set()).add(res)
+        table.setdefault(key, set()).add(res)
+        chk.ob('C06.D1', 'table:%s->%s' % (key, res), res == want, p.where[2],
+               'stored=%s region=R%d (age in [%s,%s] ns, mono-void_after in [%s,%s]) -> %s, oracle %s' %
+               (stored, r + 1, age_iv[0], age_iv[1], void_iv[0], void_iv[1], res, want))
+
+
 def run(ctx, chk):
     fb = ctx.facts()
     chk.explanation = ('Decision table of the status component of ClockErrorBound::now() (bound computation '
@@ -59,32 +77,18 @@ def run(ctx, chk):
         if tup[0] != 'agg' or len(tup[3]) != 3:
             chk.ob('C06.D1', 'now:result-shape', False, p.where[2], 'Ok payload is not a 3-tuple: %s' % fmt(tup)[:200])
             continue
-        res = common.status_of(fb, tup[3][2], p.conds)
-        stored = STATUS.get(info['stored'])
-        if stored is None:
-            chk.ob('C06.D1', 'now:stored-status-unresolved', False, p.where[2],
-                   'path returns Ok without deciding on the stored status: %s' % [psi.fmt_cond(c) for c in p.conds])
-            continue
-        if res is None:
-            chk.ob('C06.D1', 'now:result-status-unresolved', False, p.where[2],
-                   'result status is not a variant nor the stored status: %s' % fmt(tup[3][2]))
-            continue
         regs, age_iv, void_iv, rest = regions_of(m, info)
-        # D2: atoms that compare the realtime reading against record instants
-        for e, rel in rest:
-            leaves = [fmt(k) for k in e.terms]
-            if info['real'] is not None and any(fmt(info['real']) == l for l in leaves) and \
-                    any(l.endswith('as_of') or l.endswith('void_after') for l in leaves):
-                chk.ob('C06.D2', 'now:atom-on-realtime', False, p.where[2],
-                       'status/age decision compares the REALTIME reading with a record instant: %r %s 0' % (e, rel))
-        for r in regs:
-            want = ORACLE[stored][r]
-            key = '%s/R%d' % (stored, r + 1)
-            covered.setdefault(key, set()).add(res)
-            table.setdefault(key, set()).add(res)
-            chk.ob('C06.D1', 'table:%s->%s' % (key, res), res == want, p.where[2],
-                   'stored=%s region=R%d (age in [%s,%s] ns, mono-void_after in [%s,%s]) -> %s, oracle %s' %
-                   (stored, r + 1, age_iv[0], age_iv[1], void_iv[0], void_iv[1], res, want))
+        for stored_k in info['stored_set']:
+            stored = STATUS[stored_k]
+            res = common.status_of(fb, tup[3][2], p.conds)
+            if res is None and tup[3][2] == info['status_leaf']:
+                res = stored            # the path hands the stored status through
+            if res is None:
+                chk.ob('C06.D1', 'now:result-status-unresolved', False, p.where[2],
+                       'result status is not a variant nor the stored status: %s' % fmt(tup[3][2]))
+                continue
+            _rows(chk, m, info, p, stored, res, regs, age_iv, void_iv, rest, covered, table)
+        continue
     # completeness: every (stored, region) pair is decided by some Ok path
     for s in ORACLE:
         for r in range(3):
